@@ -102,6 +102,8 @@ FR = [
 "```{figure} a.png\n- item\n\n  (tf)=\n  para\n```\n\n[](#tf)\n", "```{figure} a.png\n> ## Hq in figure\n```\n\n[](#hq-in-figure)\n", "```{figure} a.png\n- item x[^a]\n```\n",
     "```{list-table}\n(tl)=\npara x[^a]\n```\n\n[](#tl)\n", "y[^d]\n\n```{figure} a.png\n- item\n\n  [^d]: definition in discarded content\n```\n",
         "<img src=\"a.png\" name=\"foo2\">\n<p>not convertible</p>\n\n[link](#foo2)\n", "<div class=\"admonition\" name=\"adm2\">\n<p>x[^a]</p>\n</div>\n<hr>\n\n[l](#adm2)\n",
+        "```{admonition} Title {nosuchrole}`x`\nbody\n```\n", "```{rubric} R {nosuchrole}`y`\n```\n", "```{topic} Topic {nosuchrole}`z`\nbody\n```\n",
+    "```{table} Cap {nosuchrole}`t`\n\n|a|\n|-|\n|b|\n```\n", "```{epigraph}\nq\n\n-- attr {nosuchrole}`a`\n```\n",
         "### H3 skipped\n", "#### H4 skipped\n\ntext\n", "{#h}\npara with the id of a heading\n", "{#h-1}\n- list with the id of the second H\n", "![a](b){#h3-skipped}\n",
     "(t2)=\n## Titled target\n", "[](#t2) and [](#t2) and <project:#t2>\n", "[](#fig1) [](#fig1)\n", "[](#h) [](#h)\n", "x[^a] y[^a]\n",
 ]
